@@ -48,6 +48,7 @@ type Op struct {
 	Scenario string   `json:"scenario,omitempty"`
 	File     string   `json:"file,omitempty"`
 	Text     string   `json:"text,omitempty"`
+	Kind     string   `json:"kind,omitempty"`
 	Engine   string   `json:"engine,omitempty"`
 	Input    string   `json:"input,omitempty"`
 	Chunk    uint64   `json:"chunk,omitempty"`
